@@ -1,0 +1,7 @@
+//go:build !verif
+
+package gtree
+
+// verifPoint marks a pipeline hand-over point. It does nothing unless the package is
+// built with the "verif" tag (see verif_hook_on.go).
+func verifPoint(string) {}
